@@ -44,6 +44,13 @@ Inductive iframe :=
         (created : bool) (pub : N).                     (* {meta desc} answered by replyGetDesc with options *)
 Definition iout := list (N * iframe).
 Definition lift_c01i (o : out) : iout := map (fun e => (fst e, FB (snd e))) o.
+(* replyOfflineTopicGetDesc (a session that is not attached): desc.CreatedAt always, desc.Public = stopic.Public;
+   the options are not read *)
+Definition lift_offline_c01i (spub : N) (o : out) : iout :=
+  map (fun e => (fst e, match snd e with
+                        | MetaDesc w g seq rd rc dl r => FDesc w g seq rd rc dl r true spub
+                        | fr => FB fr
+                        end)) o.
 
 Record istate := mkIS {
   ibase : state;          (* the group-topic model's state *)
@@ -103,8 +110,9 @@ Definition istep (f : fault) (x : istate) (o : iop) : istate * iout :=
     (* the base model's routing of {get desc}; the answer of an attached session is computed with the options *)
     let '(b1, o1) := step del_ranges norm_ranges sm f b (OGetDesc sid) in
     let o2 := match ca b with
-              | Some c => if attached c sid then get_desc_ims c (c_pub x) sid (sess_uid sm sid) i bad else lift_c01i o1
-              | None => lift_c01i o1
+              | Some c => if attached c sid then get_desc_ims c (c_pub x) sid (sess_uid sm sid) i bad
+                          else lift_offline_c01i (s_pub x) o1
+              | None => lift_offline_c01i (s_pub x) o1
               end in
     (mkIS b1 (s_pub x) (reload_pub x b1) (ncalls b1), o2)
   | ISubDesc sid want bkg i bad =>
